@@ -336,15 +336,17 @@ Proof. exact geometric_rescale_invariant_array_pxdelta. Qed.
 Print Assumptions C05_geometric_rescale_invariant_array_documented_offset.
 
 (* ---- load.py: files, EXTERNAL_LUTS, arrays in memory --------------------- *)
-(* Any sequence of get_emodulus calls and register_lut calls leaves the files,
+(* Any sequence of get_emodulus calls and register_lut calls (quiet: the user
+   does not rewrite files or modify arrays himself) leaves the files,
    the built-in tables and every array that existed before (the caller's
    (array, meta) tables) unchanged; registry entries are only added, never
    changed.  (get_emodulus scales and normalises IN PLACE, but only the array
    load_lut allocated for that call.) *)
 Theorem C05_tables_not_modified :
   forall (tri : list pt -> list triangle) (delta : feat -> Q -> Q -> Q)
-         (eta : Q -> Q) (ops : list op) (w : world),
-    pres w (fst (run_ops tri delta eta w ops)).
+         (eta : Q -> Q) (ops : list op),
+    forallb quiet ops = true ->
+    forall w : world, pres w (fst (run_ops tri delta eta w ops)).
 Proof. exact run_ops_pres. Qed.
 Print Assumptions C05_tables_not_modified.
 
@@ -370,6 +372,7 @@ Theorem C05_call_after_history :
   forall (tri : list pt -> list triangle) (delta : feat -> Q -> Q -> Q)
          (eta : Q -> Q) (w : world) (ops : list op) (d : lutdata)
          (S : setup) (m : medium) (evs : list event),
+    forallb quiet ops = true ->
     data_valid w d ->
     snd (get_emodulus_w tri delta eta (fst (run_ops tri delta eta w ops)) d S m evs)
     = snd (get_emodulus_w tri delta eta w d S m evs).
@@ -405,3 +408,28 @@ Theorem C05_register_then_resolve :
     get_lut_path w' i = Ok p.
 Proof. exact register_then_resolve. Qed.
 Print Assumptions C05_register_then_resolve.
+
+(* The file system is part of the state: between calls the user may rewrite a
+   LUT file at the same path (OWriteFile) and modify his own (array, meta)
+   table in place (OMutate).  get_emodulus calls in the history never matter:
+   erasing them all from the history gives the same result, i.e. every call
+   sees the CURRENT files, registry and arrays (no caching across calls). *)
+Theorem C05_calls_never_matter :
+  forall (tri : list pt -> list triangle) (delta : feat -> Q -> Q -> Q)
+         (eta : Q -> Q) (w : world) (ops : list op) (d : lutdata)
+         (S : setup) (m : medium) (evs : list event),
+    forallb (user_op (w_next w)) ops = true ->
+    match d with DTuple a _ => (a < w_next w)%N | DName _ => True end ->
+    snd (get_emodulus_w tri delta eta (fst (run_ops tri delta eta w ops)) d S m evs)
+    = snd (get_emodulus_w tri delta eta
+                          (fst (run_ops tri delta eta w (erase_calls ops)))
+                          d S m evs).
+Proof. exact calls_never_matter. Qed.
+Print Assumptions C05_calls_never_matter.
+
+Theorem C05_call_sees_rewritten_file :
+  forall (w : world) (p : name) (f : lutfile),
+    zlookup p (w_files w) <> None ->
+    loaded (write_file w p f) (DName p) = load_mtext f.
+Proof. exact call_sees_rewritten_file. Qed.
+Print Assumptions C05_call_sees_rewritten_file.
